@@ -148,7 +148,17 @@ Entries == <<
   [n |-> "DAuxLatitude.ctor", k |-> "ctor", a |-> <<"a", "f">>, o |-> 0],
   [n |-> "LocalCartesian.ctor", k |-> "member", a |-> <<"num", "num", "num">>, o |-> 3],
   [n |-> "UTMUPS.TransferHemi", k |-> "validating", a |-> <<"num", "num", "hemi">>, o |-> 2],
-  [n |-> "UTMUPS.TransferMatch", k |-> "validating", a |-> <<"num", "num", "hemi">>, o |-> 2] >>
+  [n |-> "UTMUPS.TransferMatch", k |-> "validating", a |-> <<"num", "num", "hemi">>, o |-> 2],
+  \* added after the mutation campaign: the transfer that stays in its zone (UPS -> UPS must refuse the other hemisphere; inside a UTM
+  \* zone a change of hemisphere is legal), the MGRS overload with a latitude, the zone string of the zone of a position, the
+  \* two-output overload of DMS::Encode, a magnetic model without constant terms
+  [n |-> "UTMUPS.TransferSame", k |-> "validating", a |-> <<"num", "num", "hemi">>, o |-> 2],
+  [n |-> "UTMUPS.TransferSameUTM", k |-> "validating", a |-> <<"num", "num", "num">>, o |-> 2],
+  [n |-> "MGRS.ForwardLat", k |-> "validating", a |-> <<"num", "num", "num">>, o |-> 1],
+  [n |-> "UTMUPS.EncodeZone", k |-> "validating", a |-> <<"num", "num">>, o |-> 1],
+  [n |-> "DMS.Encode2", k |-> "validating", a |-> <<"num">>, o |-> 1],
+  [n |-> "MagneticModel.eval10", k |-> "member", a |-> <<"num", "num", "num", "num">>, o |-> 6],
+  [n |-> "MagneticModel.Circle10", k |-> "member", a |-> <<"num", "num", "num">>, o |-> 3] >>
 
 (* ------------------------------------------------------------------------ *)
 (* Is a value class acceptable for an argument sort?  "no": the call must    *)
@@ -191,17 +201,63 @@ Dep(name, pos, out) ==
     [] name \in {"Geodesic.DirectLine", "Rhumb.Line"} /\ pos = 2 -> IF out = 2 THEN "yes" ELSE "no"                  \* lon1 only shifts lon2
     [] name = "MagneticModel.FieldComponents" /\ pos = 3 -> IF out \in {1, 3} THEN "no" ELSE "yes"                \* Bz enters neither H nor D
     [] name = "CassiniSoldner.Reset" /\ pos = 1 -> IF out = 2 THEN "yes" ELSE "no"            \* lat0 only shifts the northing
-    [] name = "MagneticModel.eval" /\ pos = 1 /\ out >= 4 -> "maybe"                          \* the rates are piecewise constant in time
+    [] name \in {"MagneticModel.eval", "MagneticModel.eval10"} /\ pos = 1 /\ out >= 4 -> "maybe"                          \* the rates are piecewise constant in time
     [] name = "NormalGravity.misc" /\ out = 4 -> "no"                                                            \* d Phi / dY does not depend on X
     [] OTHER -> "default"
 
+(* ------------------------------------------------------------------------ *)
+(* NaN arguments of the functions that validate their arguments.  "Calling   *)
+(* the class functions with NaNs as arguments is not an error; NaNs are      *)
+(* returned as appropriate.  INV is treated as an invalid zone designation   *)
+(* by UTMUPS.  INVALID is the corresponding invalid MGRS string (and         *)
+(* similarly for GARS, Geohash, and Georef strings)" (GeographicLib.dox,     *)
+(* organization).  Entry by entry, from the headers:                         *)
+(*   MGRS::Forward     "If x or y is NaN or if zone is UTMUPS::INVALID, the   *)
+(*                      returned MGRS string is "INVALID"" (the overload with *)
+(*                      a latitude forwards to the same rule; a NaN latitude  *)
+(*                      is a NaN argument of the same function)               *)
+(*   OSGB::GridReference "If x or y is NaN, the returned grid reference is    *)
+(*                      "INVALID""                                            *)
+(*   Geohash::Forward  "If lat or lon is NaN, the returned geohash is         *)
+(*                      "invalid""                                            *)
+(*   GARS::Forward, Georef::Forward  "If lat or lon is NaN, then gars /       *)
+(*                      georef is set to "INVALID""                           *)
+(*   UTMUPS            INVALID = -4 is "a marker for an undefined or invalid  *)
+(*                      zone.  Equivalent to NaN": the zone of a NaN position *)
+(*                      (StandardZone, the zone output of Forward) is INVALID *)
+(*                      and the coordinates, convergence and scale are NaN    *)
+(*   UTMUPS::EncodeZone "zone may also be UTMUPS::INVALID, in which case the  *)
+(*                      returned string is "inv""                             *)
+(* s: string outputs (channel, bytes), z: integer outputs (channel, value),  *)
+(* nan: real outputs that must be NaN.                                       *)
+(* ------------------------------------------------------------------------ *)
+W_INVALID == <<73, 78, 86, 65, 76, 73, 68>>       \* "INVALID"
+W_invalid == <<105, 110, 118, 97, 108, 105, 100>> \* "invalid"
+W_inv == <<105, 110, 118>>                        \* "inv"
+ZoneINVALID == -4
+NanDocumented == {"MGRS.Forward", "MGRS.ForwardLat", "OSGB.GridReference", "GARS.Forward", "Georef.Forward", "Geohash.Forward",
+                  "UTMUPS.StandardZone", "UTMUPS.Forward", "UTMUPS.EncodeZone"}
+NanDoc(name) ==
+  CASE name \in {"MGRS.Forward", "MGRS.ForwardLat", "OSGB.GridReference", "GARS.Forward", "Georef.Forward"} ->
+         [s |-> {<<1, W_INVALID>>}, z |-> {}, nan |-> {}]
+    [] name = "Geohash.Forward" -> [s |-> {<<1, W_invalid>>}, z |-> {}, nan |-> {}]
+    [] name = "UTMUPS.StandardZone" -> [s |-> {}, z |-> {<<1, ZoneINVALID>>}, nan |-> {}]
+    [] name = "UTMUPS.Forward" -> [s |-> {}, z |-> {<<1, ZoneINVALID>>}, nan |-> {1, 2, 3, 4}]
+    [] name = "UTMUPS.EncodeZone" -> [s |-> {<<1, W_inv>>}, z |-> {<<1, ZoneINVALID>>}, nan |-> {}]
+    [] OTHER -> [s |-> {}, z |-> {}, nan |-> {}]
+
 \* outcome predicate for one executed call
 \*   out: "ok" | exception type;  nan[i], unt[i], same[i]: per output NaN / untouched / equal to the nominal call's value
+\*   sv, iv: the string and integer outputs as the call left them (sunt, iunt: still the pre-filled value); bunt: the bool outputs
+\*   kept both pre-set values
 CallOK(e, pos, c, r) ==
   LET sort == e.a[pos] IN
   /\ r.nom = "ok"                                                   \* the nominal call itself works
   /\ r.out \in {"ok", "GeographicErr", "bad_alloc"}                 \* only the library's exception (or allocation failure)
   /\ (r.out # "ok" => \A i \in 1..e.o : r.unt[i] = 1)                \* a throwing call leaves its outputs exactly as they were
+  /\ (r.out # "ok" => /\ \A i \in 1..Len(r.sunt) : r.sunt[i] = 1      \* ... also the strings, integers and bools
+                      /\ \A i \in 1..Len(r.iunt) : r.iunt[i] = 1
+                      /\ r.bunt = 1)
   /\ CASE e.k = "ctor" -> (Invalid(sort, c) => r.out = "GeographicErr")
        [] e.k = "nothrow" -> r.out = "ok"
        [] e.k = "member" ->
@@ -214,4 +270,11 @@ CallOK(e, pos, c, r) ==
                       [] OTHER -> TRUE)
        [] e.k = "validating" ->
             /\ (Invalid(sort, c) => r.out = "GeographicErr")
+            \* a NaN argument is not an error where the documentation says what it gives: the documented marker comes back
+            /\ (c = "nan" /\ e.n \in NanDocumented =>
+                  LET d == NanDoc(e.n) IN
+                  /\ r.out = "ok"
+                  /\ \A q \in d.s : r.sv[q[1]] = q[2]
+                  /\ \A q \in d.z : r.iv[q[1]] = q[2]
+                  /\ \A i \in d.nan : r.nan[i] = 1)
 =============================================================================
